@@ -72,6 +72,11 @@ Record sresp := {
   sr_jindex : option (list desc)          (* ocispec.Index *)
 }.
 
+(* When the harness iterates the sequence value of a listing again, every later pass arrives
+   here as a case of its own: the same call (with the budget of that pass) against the answers
+   the transport had not given yet, observed = what that pass yielded, sent and read.  For
+   Referrers, whose sequence holds what the one request of the call gave, a later pass is the same
+   call against the same answers, observed = what the pass yielded and every request so far. *)
 Record case := {
   c_page : Z;                             (* Options.ListPageSize *)
   c_call : call;
